@@ -111,6 +111,12 @@ type TunPlan struct {
 	WSFrames int
 	// NTLM credentials for configurations whose gateway endpoint needs HTTP authentication
 	NTLMUser, NTLMPass string
+	// DupIn: a second RDG_IN_DATA request with the same connection id is made while the
+	// tunnel exists: 1 = after both channels were accepted and before the first body byte of
+	// the first IN channel, 2 = after DupAfter packets were sent.  If the gateway lets it in,
+	// it sends a handshake with version 7.7, which no other client of a run uses.
+	DupIn    int
+	DupAfter int
 }
 
 type Tun struct {
@@ -124,6 +130,9 @@ type Tun struct {
 	ends   []int
 	closed bool
 	Err    string
+	// Dup is the client that made the second IN request (TunPlan.DupIn)
+	Dup      *env.TunClient
+	dupStage int
 }
 
 func (t *Tun) SentAll() bool {
@@ -259,6 +268,34 @@ func StartTunnels(c *Ctx, plans []*TunPlan) []*Tun {
 			cl.SendPacket(p.Pkts[t.next].Bytes)
 			t.next++
 		})
+		if p.DupIn > 0 && p.Transport == "legacy" {
+			c.S.AddActor("D "+p.Name, func() bool {
+				if t.dupStage >= 2 || t.Err != "" || cl.Failed != "" {
+					return false
+				}
+				if p.DupIn == 1 {
+					return cl.LegacyReady() && !cl.Ready
+				}
+				return cl.Ready && t.next >= p.DupAfter
+			}, func() {
+				if t.dupStage == 0 {
+					t.Dup = c.W.NewTunClient(p.Name+"-dup", "legacy", p.From, p.ConnID)
+					t.Dup.NTLMUser, t.Dup.NTLMPass = p.NTLMUser, p.NTLMPass
+					if err := t.Dup.OpenIn(""); err != nil {
+						t.dupStage = 2
+						return
+					}
+					t.dupStage = 1
+					c.S.Count("probe.second_in_channel")
+					return
+				}
+				t.dupStage = 2
+				if t.Dup.In != nil && !t.Dup.In.Closed && !t.Dup.In.Peer.Closed {
+					t.Dup.SendPreamble()
+					t.Dup.SendPacket(codec.HandshakeRequest(7, 7, 0, 3))
+				}
+			})
+		}
 	}
 	return tuns
 }
@@ -277,7 +314,7 @@ func (t *Tun) setupEnabled() bool {
 		}
 		return cl.Status("out") == 200
 	case 2:
-		return cl.LegacyReady()
+		return cl.LegacyReady() && (p.DupIn != 1 || t.dupStage == 2)
 	}
 	return false
 }
@@ -389,6 +426,10 @@ func CheckTunnel(c *Ctx, t *Tun, mc ModelCfg, prop string) *TunVerdict {
 		case "pkt":
 			if e.Pkt.Err != "" {
 				failf(c, "C16", "malformed:"+codec.PktName(e.Pkt.Type), "%s: gateway sent malformed %s: %s raw=%s", name, codec.PktName(e.Pkt.Type), e.Pkt.Err, short(e.Pkt.Raw))
+				return v
+			}
+			if e.Pkt.Type == codec.PktHandshakeResponse && e.Pkt.Major == 7 && e.Pkt.Minor == 7 && t.Dup != nil {
+				failf(c, "C01", "second-in-channel-processed", "%s: a handshake sent on a second RDG_IN_DATA connection of the same connection id (opened %s) was processed and answered: two packet streams feed one tunnel; %s", name, map[int]string{1: "before the first body byte of the first IN channel", 2: "on the established tunnel"}[p.DupIn], cl.Describe())
 				return v
 			}
 			if e.Pkt.Type == codec.PktData {
